@@ -416,7 +416,21 @@ def check_program(fam: str, files, prog: Program, r: common.Result, only_assign=
     assigns = [only_assign] if only_assign is not None else list(itertools.product(*[d for _, d in doms]))
     for assign in assigns:
         assign = tuple(assign)
-        obs, cfg, hdr, js, user, picks = run_one(files, model, names, assign)
+        try:
+            obs, cfg, hdr, js, user, picks = run_one(files, model, names, assign)
+        except Exception as e:  # noqa: BLE001 -- an exception out of the evaluator / writers is an observation
+            import os
+            import traceback
+
+            tb = traceback.extract_tb(e.__traceback__)
+            site = next((f"{os.path.basename(fr.filename)}:{fr.name}" for fr in reversed(tb) if "/mck/" not in fr.filename), "?")
+            r.evals += 1
+            r.violation(
+                {"kind": "exception", "exc": type(e).__name__, "site": site, "family": fam},
+                f"evaluating / writing with assignment {dict(zip(names, assign))} raised {type(e).__name__}: {e}",
+                {"family": fam, "program": ptext, "files": files, "names": names, "assign": list(assign)},
+            )
+            continue
         results[assign] = (obs, cfg, hdr, js)
         r.evals += 1
         ev = refsem.Eval(model, user, picks)
